@@ -23,7 +23,7 @@ def hashseed_for(seed):
     return HASHSEEDS[seed % len(HASHSEEDS)]
 
 
-_CLS = re.compile(r'_(c?\d+|mysql|postgresql|sqlite|mssql|oracle)$')
+_CLS = re.compile(r'_(c?\d+|mysql|postgresql|sqlite|mssql|oracle|postgres|Snowflake)$')
 
 
 def family_classes(corpus):
